@@ -61,6 +61,39 @@ def run_harness(ctx, binp, outdir, extra):
     return stats, cases, res, None
 
 
+def one_round(ctx, binp, tag, extra, pcbin):
+    """one harness run + re-runs of disagreeing scenarios. returns (stats, cases, status, retried, rounds, err)"""
+    stats, cases, res, err = run_harness(ctx, binp, ctx.rundir / tag, extra)
+    if err:
+        return {}, [], [], 0, 0, err
+    bm, bo = set(res["r_bad_model"]), set(res["r_bad_monitor"])
+    status = [dict(model_ok=i not in bm, monitor_ok=i not in bo) for i in range(len(cases))]
+    retried, rounds = 0, 0
+    # DESIGN 2.4: scenarios that disagree are re-run (alone, on a quiet machine the timings are tight)
+    # before being reported: a genuine regression reproduces, scheduling noise does not.
+    for attempt in (1, 2, 3):
+        sus = [i for i, st in enumerate(status)
+               if not st["model_ok"] or (not st["monitor_ok"] and classify(cases[i]) is None)]
+        if not sus:
+            break
+        rounds = attempt
+        rf = ctx.rundir / ("%s-retry%d.json" % (tag, attempt))
+        rf.write_text(json.dumps([scenario_of(cases[i]) for i in sus]))
+        ex = ["-replay", str(rf), "-par", "6"] + (["-pcbin", str(pcbin)] if pcbin else [])
+        _, rcases, rres, err = run_harness(ctx, binp, ctx.rundir / ("%s-retry%d" % (tag, attempt)), ex)
+        if err or len(rcases) != len(sus):
+            break
+        rbm, rbo = set(rres["r_bad_model"]), set(rres["r_bad_monitor"])
+        for j, i in enumerate(sus):
+            retried += 1
+            st = dict(model_ok=j not in rbm, monitor_ok=j not in rbo, attempts=attempt + 1)
+            better = st["model_ok"] and (st["monitor_ok"] or classify(rcases[j]) is not None)
+            if better or attempt == 3:
+                rcases[j]["id"] = cases[i]["id"]
+                cases[i], status[i] = rcases[j], st
+    return stats, cases, status, retried, rounds, None
+
+
 def run(ctx):
     ok, log = V.build_coq()
     if not ok:
@@ -79,7 +112,8 @@ def run(ctx):
     if ok:
         extra = ["-seed", str(ctx.seed), "-n", "150" if thorough else "30", "-tier", ctx.tier,
                  "-corpus", str(V.VERIF / "corpus" / "C06")]
-        if thorough:
+        rp = json.load(open(ctx.replay)) if ctx.replay else None
+        if thorough or (rp and any(c.get("kind") == "binary" for c in rp.get("cases", []))):
             pcbin = ctx.rundir / "process-compose"
             rc, out = V.sh(["go", "build", "-o", str(pcbin), "./src"], cwd=V.REPO, timeout=900, env=V.GOENV)
             if rc != 0:
@@ -88,39 +122,30 @@ def run(ctx):
             else:
                 extra += ["-pcbin", str(pcbin)]
         if ctx.replay:
-            rp = json.load(open(ctx.replay))
             cf = ctx.rundir / "replay_scenarios.json"
             cf.write_text(json.dumps([scenario_of(c) for c in rp.get("cases", [])]))
             extra = ["-replay", str(cf)] + (["-pcbin", str(pcbin)] if pcbin else [])
-        stats, cases, res, err = run_harness(ctx, binp, ctx.rundir / "main", extra)
-        if err:
-            ctx.broken_build(err.split("\n")[0], err)
-            cases = []
-        else:
-            bm, bo = set(res["r_bad_model"]), set(res["r_bad_monitor"])
-            status = [dict(model_ok=i not in bm, monitor_ok=i not in bo) for i in range(len(cases))]
-            # DESIGN 2.4: scenarios that disagree are re-run (alone, on a quiet machine the timings are tight)
-            # before being reported: a genuine regression reproduces, scheduling noise does not.
-            for attempt in (1, 2, 3):
-                sus = [i for i, st in enumerate(status)
-                       if not st["model_ok"] or (not st["monitor_ok"] and classify(cases[i]) is None)]
-                if not sus:
-                    break
-                retry_rounds = attempt
-                rf = ctx.rundir / ("retry%d.json" % attempt)
-                rf.write_text(json.dumps([scenario_of(cases[i]) for i in sus]))
-                ex = ["-replay", str(rf), "-par", "6"] + (["-pcbin", str(pcbin)] if pcbin else [])
-                _, rcases, rres, err = run_harness(ctx, binp, ctx.rundir / ("retry%d" % attempt), ex)
-                if err or len(rcases) != len(sus):
-                    break
-                rbm, rbo = set(rres["r_bad_model"]), set(rres["r_bad_monitor"])
-                for j, i in enumerate(sus):
-                    retried += 1
-                    st = dict(model_ok=j not in rbm, monitor_ok=j not in rbo, attempts=attempt + 1)
-                    better = st["model_ok"] and (st["monitor_ok"] or classify(rcases[j]) is not None)
-                    if better or attempt == 3:
-                        rcases[j]["id"] = cases[i]["id"]
-                        cases[i], status[i] = rcases[j], st
+        rounds = [(ctx.seed, extra)]
+        if thorough and not ctx.replay:
+            # more seeds: other random parameters / trees / API choices (the grid is repeated each time)
+            for k in range(1, 5):
+                ex = list(extra)
+                ex[ex.index("-seed") + 1] = str(ctx.seed + 1000 * k)
+                ex = [x for x in ex if x not in ("-corpus", str(V.VERIF / "corpus" / "C06"))]
+                rounds.append((ctx.seed + 1000 * k, ex))
+        for rno, (rseed, ex) in enumerate(rounds):
+            st_, cs_, status_, nretried, nrounds, err = one_round(ctx, binp, "r%d" % rno, ex, pcbin)
+            if err:
+                ctx.broken_build(err.split("\n")[0], err)
+                break
+            for k, v in st_.get("counts", {}).items():
+                stats.setdefault("counts", {})[k] = stats.get("counts", {}).get(k, 0) + v
+            for k in ("prep_phase_s", "fake_phase_s", "real_phase_s"):
+                stats[k] = round(stats.get(k, 0) + st_.get(k, 0), 2)
+            cases += cs_
+            status += status_
+            retried += nretried
+            retry_rounds = max(retry_rounds, nrounds)
     # ---- verdict (DESIGN 2.4)
     bad_mon = [i for i, st in enumerate(status) if not st["monitor_ok"]]
     bad_model = [i for i, st in enumerate(status) if not st["model_ok"]]
@@ -142,6 +167,10 @@ def run(ctx):
             if reported < 5:
                 ctx.violation(replay, describe(c))
             reported += 1
+    for i, c in enumerate(cases):
+        if c["kind"] == "binary" and not c.get("survivors") and not c.get("exited") and status[i]["monitor_ok"]:
+            ctx.violation({"case": view(c), "cases": [scenario_of(c)]},
+                          "the process-compose binary did not exit after %s although every managed process is dead" % c["via"])
     bmo = [i for i in bad_model if status[i]["monitor_ok"]]
     if bmo:
         i = bmo[0]
